@@ -14,7 +14,7 @@ def run_history(args):
     rng = random.Random(seed)
     # `live`: the history is only ever run on live objects (never fed to a collection as texts), so it
     # may also use odd message IDs, add the same message *object* again and call msg.merge(ro) directly
-    g = gen_hist.Gen(rng, odd_message_ids=live)
+    g = gen_hist.Gen(rng, odd_message_ids=live, corner_durations=live and not views)
     n = rng.randrange(1, max_steps + 1)
     ro_tree = g.ro(rng.randrange(0, 5))
     ro_text = TJ.to_text(ro_tree)
@@ -306,6 +306,46 @@ def _big_plans():
                    ('ItemMoveMultiple', B.item_move_multiple('W', ['w2090', 'w2090'], message_id='13')),
                    ('ItemDelete', B.item_delete('W', ['w2099', 'w5', 'w0'], message_id='14'))]))
     return plans
+
+
+def _corner_plans():
+    """Running orders whose timing metadata sits at a numeric corner (not-a-number, infinite, beyond float and
+    datetime range): no merge reads it, so every class of message must still go in as into any other running order."""
+    from . import build as B
+    from .treejson import E
+    corners = [('nan', '2021-06-01T22:30:00', 'nan'), ('inf', '2021-06-01T22:30:00', 'inf'), ('-inf', '2021-06-01T22:30:00', '-inf'),
+               ('1e400', '2021-06-01T22:30:00', '1e400'), ('1e15', '2021-06-01T22:30:00', '1e15'),
+               ('before-year-1', '0001-01-01T00:00:10', '-60'), ('end-of-9999', '9999-12-31T23:59:30', '45'),
+               ('junk-start', '0000-00-00T99:99:99', '5'), ('huge-int', '2021-06-01T22:30:00', '9' * 400),
+               ('clock-duration', '2021-06-01T22:30:00', '00:01:30'), ('empty-duration', '2021-06-01T22:30:00', ''),
+               ('junk-both', 'tomorrow-ish', 'about a minute')]
+    X = lambda i, t='10': B.story(i, [B.item(i + '-a')], md=B.timing_md(text_time=t, media_time='0'))
+    plans = []
+    for name, start, t in corners:
+        for field in ('text_time', 'duration', 'media_time'):
+            md = lambda v: B.timing_md(**{field: v})
+            ro = B.ro_doc([B.story('S1', [B.item('a1', extra=[E('itemEdDur', text=t)]), B.item('a2')], md=md(t)),
+                           B.story('S2', [B.item('b1')], md=md('30')), B.story('S3', [], md=md(t))], message_id='1', ed_start=start)
+            plan = [('StoryInsert', B.story_insert('S2', [X('N1')], message_id='10')),
+                    ('EAStoryInsert', B.ea('INSERT', {'storyID': 'S2'}, [[X('N2', t)]], message_id='11')),
+                    ('StoryAppend', B.story_append([X('N3')], message_id='12')),
+                    ('StoryMove', B.story_move(['S3', 'S1'], message_id='13')),
+                    ('EAStorySwap', B.ea('SWAP', B.ABSENT, [B.ids('storyID', ['S1', 'N1'])], message_id='14')),
+                    ('StoryReplace', B.story_replace('S2', [X('S2', t)], message_id='15')),
+                    ('StorySend', B.story_send('S1', [B.p('sent'), B.item('n1')], message_id='16')),
+                    ('ItemInsert', B.item_insert('S1', 'n1', [B.item('n0', extra=[E('itemEdDur', text=t)])], message_id='17')),
+                    ('EAItemMove', B.ea('MOVE', {'storyID': 'S1', 'itemID': 'n0'}, [B.ids('itemID', ['n1'])], message_id='18')),
+                    ('StoryInsert', B.story_insert('S1', [X('N1')], message_id='19')),            # a duplicate: warning, not an error
+                    ('StoryDelete', B.story_delete(['N3', 'nowhere'], message_id='20')),
+                    ('MetaDataReplace', B.metadata_replace([E('roSlug', text='new slug'), E('roEdStart', text=start)], message_id='21')),
+                    ('RunningOrderEnd', B.ro_delete(message_id='22')),
+                    ('StoryAppend', B.story_append([X('N4')], message_id='23'))]
+            plans.append((f'{name}/{field}', ro, plan))
+    return plans
+
+
+def run_corner_histories():
+    return _run_plans(_corner_plans(), 'timing-corner:', False)
 
 
 def run_big_histories(views=False):
